@@ -56,7 +56,7 @@ pub trait ShimFilterMap: Iterator + Sized {
         ensures
             exists|ys: Seq<Option<B>>| #![trigger somes(ys)] ys.len() == self.remaining().len()
                 && (forall|i: int| 0 <= i < ys.len() ==> f.ensures((self.remaining()[i],), #[trigger] ys[i]))
-                && r.remaining() == somes(ys) && r.obeys_prophetic_iter_laws() && r.decrease() is Some;
+                && r.remaining() == somes(ys) && crate::prelude::elems(&r) == somes(ys) && r.obeys_prophetic_iter_laws() && r.decrease() is Some;
 }
 impl<I: Iterator> ShimFilterMap for I {
     #[verifier::external_body]
@@ -80,6 +80,47 @@ impl<I: Iterator> ShimFind for I {
     #[verifier::external_body]
     fn shim_find<P: FnMut(&I::Item) -> bool>(self, p: P) -> (r: Option<I::Item>)
     { let mut s = self; s.find(p) }
+}
+
+pub trait ShimFilter: Iterator + Sized {
+    fn shim_filter<P: FnMut(&Self::Item) -> bool>(self, p: P) -> (r: std::vec::IntoIter<Self::Item>)
+        requires
+            self.obeys_prophetic_iter_laws(),
+            forall|i: int| 0 <= i < self.remaining().len() ==> p.requires((&#[trigger] self.remaining()[i],)),
+        ensures
+            exists|bs: Seq<bool>| #![trigger keep(self.remaining(), bs)] bs.len() == self.remaining().len()
+                && (forall|i: int| 0 <= i < bs.len() ==> p.ensures((&self.remaining()[i],), #[trigger] bs[i]))
+                && r.remaining() == keep(self.remaining(), bs) && crate::prelude::elems(&r) == keep(self.remaining(), bs) && r.obeys_prophetic_iter_laws() && r.decrease() is Some;
+}
+impl<I: Iterator> ShimFilter for I {
+    #[verifier::external_body]
+    fn shim_filter<P: FnMut(&I::Item) -> bool>(self, p: P) -> (r: std::vec::IntoIter<I::Item>)
+    { self.filter(p).collect::<Vec<I::Item>>().into_iter() }
+}
+
+pub trait ShimEnumerate: Iterator + Sized {
+    fn shim_enumerate(self) -> (r: std::vec::IntoIter<(usize, Self::Item)>)
+        requires self.obeys_prophetic_iter_laws(),
+        ensures r.remaining().len() == self.remaining().len(), crate::prelude::elems(&r) == r.remaining(), r.obeys_prophetic_iter_laws(), r.decrease() is Some,
+            forall|i: int| 0 <= i < self.remaining().len() ==> (#[trigger] r.remaining()[i]).0 == i && r.remaining()[i].1 == self.remaining()[i];
+}
+impl<I: Iterator> ShimEnumerate for I {
+    #[verifier::external_body]
+    fn shim_enumerate(self) -> (r: std::vec::IntoIter<(usize, I::Item)>)
+    { self.enumerate().collect::<Vec<(usize, I::Item)>>().into_iter() }
+}
+
+// `.cloned()` on an iterator of references: Clone of the naga IR types is a structural copy
+pub trait ShimCloned<'a, T: 'a + Clone>: Iterator<Item = &'a T> + Sized {
+    fn shim_cloned(self) -> (r: std::vec::IntoIter<T>)
+        requires self.obeys_prophetic_iter_laws(),
+        ensures r.remaining().len() == self.remaining().len(), crate::prelude::elems(&r) == r.remaining(), r.obeys_prophetic_iter_laws(), r.decrease() is Some,
+            forall|i: int| 0 <= i < self.remaining().len() ==> #[trigger] r.remaining()[i] == *self.remaining()[i];
+}
+impl<'a, T: 'a + Clone, I: Iterator<Item = &'a T>> ShimCloned<'a, T> for I {
+    #[verifier::external_body]
+    fn shim_cloned(self) -> (r: std::vec::IntoIter<T>)
+    { self.cloned().collect::<Vec<T>>().into_iter() }
 }
 
 } // verus!
